@@ -23,13 +23,15 @@ def inputs(case):
     """input files are built once per job"""
     key = json.dumps([case.get('names', True), case.get('hmap', False),
                       case.get('shared_label', False),
-                      case.get('childless', False)])
+                      case.get('childless', False),
+                      case.get('slash', False)])
     if STATE.get('key') != key:
         STATE['inp'] = ST.Inputs(with_names=case.get('names', True),
                                  hmap=case.get('hmap', False),
                                  shared_label=case.get('shared_label',
                                                        False),
-                                 childless=case.get('childless', False))
+                                 childless=case.get('childless', False),
+                                 slash=case.get('slash', False))
         STATE['key'] = key
     return STATE['inp']
 
